@@ -110,7 +110,11 @@ def r1_fields(ctx, repo):
                 ctx.inconclusive("R1", C, where(mod, td), "the value written under key '%s' (%s) is not resolved" % (f, text(w)))
                 continue
             base_own = {p.split("[")[0] for p in own}
-            sliced = [n for n in ast.walk(w) if isinstance(n, ast.Subscript) and access_path(n.value) == want]
+            # self.f[k] with k ranging over self.f itself is the whole mapping read entry by entry, not a part of it
+            walkers = {g.target.id for c_ in ast.walk(w) if isinstance(c_, (ast.ListComp, ast.DictComp, ast.SetComp, ast.GeneratorExp))
+                       for g in c_.generators if isinstance(g.target, ast.Name) and access_path(g.iter) == want}
+            sliced = [n for n in ast.walk(w) if isinstance(n, ast.Subscript) and access_path(n.value) == want
+                      and not (isinstance(n.slice, ast.Name) and n.slice.id in walkers)]
             if want not in base_own and not any(p.startswith(want + ".") for p in base_own):
                 problems.append("key '%s' is written from %s, not from self.%s" % (f, sorted(base_own) or text(w), f))
             elif sliced:
